@@ -484,8 +484,10 @@ Definition handler_defaults_nil_opts : bool := true.
 
 Section Handlers.
   Variable E : env.
-  (** the zoekt.Streamer behind the server: Search/StreamSearch (opts non-nil) and List *)
+  (** the zoekt.Streamer behind the server: Search (opts non-nil) returns a *SearchResult,
+      StreamSearch (opts non-nil) sends a list of *SearchResult events, List returns a *RepoList *)
   Variable search : val -> val -> outcome val.
+  Variable stream : val -> val -> outcome val.
   Variable list : val -> val -> outcome val.
 
   Definition decode_query (q : val) : outcome val :=
@@ -500,27 +502,73 @@ Section Handlers.
 
   (** every searcher reads fields of *SearchOptions without a nil check
       (index.NewDisplayTruncator, search.streamSearch, loggedSearcher.log) *)
-  Definition call_search (q opts : val) : outcome val :=
-    if is_nil opts then Panic P_NIL else search q opts.
+  Definition call_search (f : val -> val -> outcome val) (q opts : val) : outcome val :=
+    if is_nil opts then Panic P_NIL else f q opts.
 
-  Definition search_core (defaults : bool) (request : val) : outcome val :=
+  Definition search_core (f : val -> val -> outcome val) (defaults : bool) (request : val) : outcome val :=
     do q <- decode_query (getf "Query" request);
     do opts <- apply E (CRec false true "zoekt.SearchOptions") (getf "Opts" request);
-    call_search q (if defaults && is_nil opts then zero_opts else opts).
+    call_search f q (if defaults && is_nil opts then zero_opts else opts).
 
-  Definition handle_search (defaults : bool) (req : val) : outcome val := search_core defaults req.
+  (** response encoding: `res.ToProto()` on what the searcher returned (a nil result stays nil when
+      ToProto is nil-guarded, otherwise it is dereferenced) *)
+  Definition enc_result (n : string) (r : val) : outcome val :=
+    match lookup n (e_tables E) with
+    | Some t => apply E (CRec true (t_to_nilguard t) n) r
+    | None => Err ERR_SHAPE
+    end.
+
+  Definition handle_search (defaults : bool) (req : val) : outcome val :=
+    do r <- search_core search defaults req; enc_result "zoekt.SearchResult" r.
+  (** every event is encoded (ToStreamProto = ToProto inside a StreamSearchResponse); the chunking
+      of one event into several messages (grpc/chunk) is outside the model *)
   Definition handle_stream_search (defaults : bool) (req : val) : outcome val :=
-    search_core defaults (getf "Request" req).
-  Definition handle_list (req : val) : outcome val :=
+    do r <- search_core stream defaults (getf "Request" req);
+    match r with
+    | VL evs => do l <- omap (enc_result "zoekt.SearchResult") evs; Ok (VL l)
+    | _ => Err ERR_SHAPE
+    end.
+  Definition list_core (f : val -> val -> outcome val) (req : val) : outcome val :=
     do q <- decode_query (getf "Query" req);
     do opts <- apply E (CRec false true "zoekt.ListOptions") (getf "Opts" req);
-    list q opts.
+    f q opts.
+  Definition handle_list (req : val) : outcome val :=
+    do r <- list_core list req; enc_result "zoekt.RepoList" r.
+
+  (** the arguments the handler hands to the searcher (for the correspondence: a wrapping Streamer
+      records the query and the options it is called with) *)
+  Definition handle_args (defaults : bool) (h : N) (req : val) : outcome val :=
+    let pair := fun q o => Ok (VL [q; o]) in
+    match h with
+    | 0%N => search_core pair defaults req
+    | 1%N => search_core pair defaults (getf "Request" req)
+    | _ => list_core pair req
+    end.
 
   Definition handle (defaults : bool) (h : N) (req : val) : outcome val :=
     match h with
     | 0%N => handle_search defaults req
     | 1%N => handle_stream_search defaults req
     | _ => handle_list req
+    end.
+
+  (** what a searcher may return: a value of the round-trip domain of the result type (nil included
+      when both conversions are nil-guarded) *)
+  Definition res_dom (n : string) (r : val) : bool :=
+    match lookup n (e_tables E) with
+    | Some t => dom_b E (CRec true (t_to_nilguard t) n) (CRec false (t_from_nilguard t) n) r
+    | None => false
+    end.
+  (** what comes back on the client: the named exclusions are reset *)
+  Definition res_back (n : string) (r : val) : val :=
+    match lookup n (e_tables E), r with
+    | Some t, VR fs => VR (mask_excl (excl_of E n) (t_from t) fs)
+    | _, _ => r
+    end.
+  Definition dec_result (n : string) (w : val) : outcome val :=
+    match lookup n (e_tables E) with
+    | Some t => apply E (CRec false (t_from_nilguard t) n) w
+    | None => Err ERR_SHAPE
     end.
 End Handlers.
 
@@ -606,6 +654,11 @@ Inductive wcase : Type :=
 | WDom (ct cf : conv) (v : val) (retab : list (list N * option (list N)))
   (* the harness generated [v] as a member of the round-trip domain *)
 | WHandler (h : N) (req : val) (cls : N) (retab : list (list N * option (list N)))
+| WHandlerR (h : N) (req sres resp : val) (retab : list (list N * option (list N)))
+  (* the real handler (0 Search, 2 List) was called with [req]; the searcher behind it returned [sres]
+     (recorded by a wrapping Streamer) and the handler answered with the message [resp] *)
+| WHandlerA (h : N) (req q opts : val) (retab : list (list N * option (list N)))
+  (* the real handler was called with [req] and called the searcher with the query [q] and the options [opts] *)
 | WNilFrom (n : string) (obs : outcome val) (retab : list (list N * option (list N))).
   (* the real XFromProto of struct type [n] was called with a nil message and produced [obs] *)
   (* the real handler was called: cls 0 = response or an error of the searcher, 1 = InvalidArgument, 3 = panic *)
